@@ -219,6 +219,8 @@ def main():
             tier = args[i + 1]; i += 2
         elif args[i] == "--replay":
             replay = args[i + 1]; i += 2
+        elif args[i] == "--seed":
+            os.environ["VERIF_SEED"] = args[i + 1]; i += 2
         else:
             i += 1
     if tier not in ("quick", "thorough"):
